@@ -1,6 +1,6 @@
 #!/bin/bash
 # Developer tool: parallel refmatrix -- runs all checks on every benign refactoring in scratch worktrees of /repo HEAD (never touches /repo's tree)
-# usage: refmatrix_par.sh [root] [shards]
+# usage: [PROPS="C03 C04"] refmatrix_par.sh [root] [shards]
 cd /verif; ./run.sh build >/dev/null 2>&1
 ROOT=${1:-/verif/benign}; N=${2:-8}
 export GOFLAGS=-mod=mod GOPROXY=off GOSUMDB=off GOTOOLCHAIN=local; unset GOWORK
@@ -12,7 +12,8 @@ shard() {
   awk -v n=$N -v k=$k 'NR%n==k' /tmp/refpar/all.txt | while read p; do
     id=$(basename $(dirname $p))
     if git -C $WT apply $p 2>/dev/null; then
-      /tmp/refpar/gmverif check -prop all -tier quick -repo $WT -verif $V > $V/$id.out 2>&1
+      : > $V/$id.out
+      for q in ${PROPS:-all}; do /tmp/refpar/gmverif check -prop $q -tier quick -repo $WT -verif $V >> $V/$id.out 2>&1; done
       git -C $WT checkout -q -- . ; git -C $WT clean -fdq
       v=$(grep -c "^VIOLATION" $V/$id.out); u=$(grep -c "^UNDECIDED" $V/$id.out)
       echo "$id violations=$v undecided=$u $(grep -A1 '^VIOLATION' $V/$id.out | grep -o 'rule=[A-Za-z0-9-]*' | sort -u | tr '\n' ' ') $(grep '^UNDECIDED' $V/$id.out | sed 's/UNDECIDED property=\(C[0-9]*\).*/\1/' | sort -u | tr '\n' ' ')"
